@@ -31,6 +31,9 @@ func faultsLabel(s *Sim, labels []string) []string {
 func withFaults(d D, c *Case, faultOneIn, crashOneIn int) {
 	if d.OneIn(faultOneIn, "faults") {
 		c.Prof.FailBefore, c.Prof.FailAfter = 12, 10
+		if d.Bool("commitfaults") {
+			c.Prof.CommitFail = 15 // natural store failure: the database refuses the COMMIT
+		}
 	}
 	if d.OneIn(crashOneIn, "crashes") {
 		c.CrashBetween = 8
